@@ -90,7 +90,8 @@ def filter_truthiness(rep, if_cases):
     jobs = []
     for it in items:
         vexpr = it["prog"][1]["e"]["as"][1]["c"]
-        src = "@ %s { eprintln(\"HIT\"); }\n" % expr_text(vexpr)
+        # (every other script has an accepting pattern-only filter in front: later filters still see the packet)
+        src = ("@ true\n" if len(jobs) % 2 else "") + "@ %s { eprintln(\"HIT\"); }\n" % expr_text(vexpr)
         it["fsrc"] = src
         jobs.append((["-s", "-c", src], cap))
     results = run_many(jobs)
